@@ -305,16 +305,15 @@ class ParametriseTransformation(Transformation):
             call_map = {}
             for call in FindNodes(ir.CallStatement).visit(routine.body):
                 if str(call.name) in successor_map:
-                    successor_map[str(call.name)].trafo_data[self._key] = {}
-                    arg_map = dict(call.arg_iter())
-                    arg_map_reversed = {v: k for k, v in arg_map.items()}
-                    indices = [call.arguments.index(var2p) for var2p in vars2p if var2p in call.arguments]
-                    for index in indices:
-                        name = str(call.name)
-                        successor_map[name].trafo_data[self._key][str(arg_map_reversed[call.arguments[index]])] = \
-                            dic2p[call.arguments[index].name]
+                    successor_dic2p = {}
+                    # every dummy argument (positional or keyword) that receives a parametrised variable
+                    for dummy, actual in call.arg_iter():
+                        if actual in vars2p:
+                            successor_dic2p[str(dummy)] = dic2p[actual.name]
+                    successor_map[str(call.name)].trafo_data[self._key] = successor_dic2p
                     arguments = tuple(arg for arg in call.arguments if arg not in vars2p)
-                    call_map[call] = call.clone(arguments=arguments)
+                    kwarguments = tuple((kw, arg) for kw, arg in call.kwarguments if arg not in vars2p)
+                    call_map[call] = call.clone(arguments=arguments, kwarguments=kwarguments)
             routine.body = Transformer(call_map).visit(routine.body)
 
             # remove declarations
